@@ -24,6 +24,28 @@ CONF = [True, False, 1, 0, -1, 1.0, 0.0, -0.0, "1", "0", "true", "True", "false"
 KEYS = ["a", "b", "item", "type", "x1", "_k", "k-2", "k.3", "config"]
 
 
+CONF += ["1e3", "6E23", "-2e-5", "see // docs", "x //", "// y", "/* z */", "# c", "a # b", "0x1F", "0o17", "1_000", "12:30:00", "2001-01-01", "=", "<<",
+         "a\n\nb", "a\x85b"]
+KEYS += ["a // b", "y", "CONFIG"]
+
+
+def inner_keys(t):
+    out = []
+    if isinstance(t, dict):
+        for k, v in t.items():
+            out.append(k)
+            out += inner_keys(v)
+    elif isinstance(t, list):
+        for v in t:
+            out += inner_keys(v)
+    return out
+
+
+def xml_name(k):
+    import re
+    return isinstance(k, str) and re.match(r"^[A-Za-z_][A-Za-z0-9_.\-]*\Z", k) is not None
+
+
 def gen_tree(rng, depth=3, top=True):
     r = rng.random()
     if top or (depth > 0 and r < 0.3):
@@ -192,7 +214,7 @@ def is_xml_char(c):
 
 def in_domain(fmt, t):
     if isinstance(t, dict):
-        return all(in_domain(fmt, v) for v in t.values())
+        return all(in_domain(fmt, v) for v in t.values()) and (fmt != "xml" or all(xml_name(k) for k in t))
     if isinstance(t, list):
         return all(in_domain(fmt, v) for v in t)
     if isinstance(t, str):
@@ -229,12 +251,15 @@ def stream_doc(ctx, res, n):
                     res.violate(None, "%s decodes to a different tree" % fmt, dict(case, decoded=back))
                 decoded[fmt] = back
                 if fmt == "xml":
-                    other = "y" if opts.get("root_tag", "config") != "y" else "z"
-                    try:
-                        ConfigFormat.get("xml", root_tag=other).loads(None, b)
-                        res.violate(None, "XML document with the wrong root tag accepted", case)
-                    except ValueError:
-                        pass
+                    mine = opts.get("root_tag", "config")
+                    # a reader expecting another root tag: an unrelated one, and every name that occurs inside the document
+                    others = {"y" if mine != "y" else "z", "item"} | set(inner_keys(t))
+                    for other in sorted(o for o in others if o != mine and xml_name(o)):
+                        try:
+                            ConfigFormat.get("xml", root_tag=other).loads(None, b)
+                            res.violate("C04:wrong-root-accepted", "XML document with the wrong root tag accepted", dict(case, reader_root=other))
+                        except ValueError:
+                            pass
         # yaml wrapper vs model
     # YAML root-key wrapper: model correspondence on (root_key, tree)
     from cincoconfig.formats.yaml import YamlConfigFormat
